@@ -67,7 +67,13 @@ def main():
     with open(os.path.join(SEEDED, 'SUMMARY.md'), 'w') as f:
         f.write('# Seeded property-breaking changes and the checks that catch them (repo HEAD %s, tier %s)\n\n' % (head, tier))
         f.write('| mutant | property | result of its own check | first violation signature |\n|---|---|---|---|\n')
-        for mid, prop, res in rows:
+        allrows = []
+        for mid in sorted(os.listdir(SEEDED)):
+            mp = os.path.join(SEEDED, mid, 'meta.json')
+            if os.path.isfile(mp):
+                m = json.load(open(mp))
+                allrows.append((mid, m['breaks_property'], m['result']))
+        for mid, prop, res in allrows:
             r = res.get(prop, {})
             f.write('| %s | %s | %s | %s |\n' % (mid, prop, r.get('status'), (r.get('violation_signatures') or [''])[0].replace('|', '\\|')[:110]))
 
